@@ -272,3 +272,46 @@ Proof.
       apply (Fin (pact b) v' dR1 dP1 (Some (t, false)) HR1 HP1 Ha H).
   - apply (Fin (pact b) v1 dR1 dP1 None HR1 HP1 Ha H).
 Qed.
+
+(* ---- whole A-FSSH runs ---- *)
+Definition af_ok (n : nat) (d : adata (T:=R)) : Prop :=
+  length (alam d) = n /\ unitary n (mget ROps (aC d))
+  /\ Forall (fun fmx => forall i j, (i < n)%nat -> (j < n)%nat -> nth j (nth i fmx []) (o0 ROps) = nth i (nth j fmx []) (o0 ROps)) (afm1 d).
+
+(* the active state after a pass *)
+Lemma step_af_active n m dt poisson zeta eprev e0 e1 fm1 epsR coR lam Cm etas (s s' : astate (T:=R)) att coll :
+  step_af ROps n m dt poisson zeta eprev e0 e1 fm1 epsR coR lam Cm etas s = (s', att, coll) ->
+  pact (ab s') = match att with Some (t, true) => t | _ => pact (ab s) end.
+Proof.
+  unfold step_af. destruct (hopper ROps poisson _ zeta) as [tg hp]. destruct tg as [t|].
+  - destruct (hop_to_it ROps m _ (pact (ab s)) t _ _) as [[a' v'] acc] eqn:Eh. destruct acc.
+    + assert (a' = t) as -> by (unfold hop_to_it in Eh; destruct (hop_allowed _ _ _ _ _); [injection Eh as <- _; reflexivity | discriminate]).
+      cbv zeta. destruct (collapse_scan ROps _ t 0 etas) as [c0 r0]. destruct (collapse_apply ROps n t c0 _ _ _) as [[? ?] ?].
+      intros H; injection H as <- <- _. reflexivity.
+    + assert (a' = pact (ab s)) as -> by (unfold hop_to_it in Eh; destruct (hop_allowed _ _ _ _ _); [discriminate | injection Eh as <- _; reflexivity]).
+      cbv zeta. destruct (collapse_scan ROps _ (pact (ab s)) 0 etas) as [c0 r0]. destruct (collapse_apply ROps n _ c0 _ _ _) as [[? ?] ?].
+      intros H; injection H as <- <- _. reflexivity.
+  - cbv zeta. destruct (collapse_scan ROps _ (pact (ab s)) 0 etas) as [c0 r0]. destruct (collapse_apply ROps n _ c0 _ _ _) as [[? ?] ?].
+    intros H; injection H as <- <- _. reflexivity.
+Qed.
+
+(* any number of A-FSSH passes: moments and density matrix stay Hermitian, provided every accepted target is a state index *)
+Theorem run_af_hermitian n m dt poisson (ds : list (adata (T:=R))) : forall s sf evs,
+  run_af ROps n m dt poisson ds s = (sf, evs) ->
+  Forall (af_ok n) ds -> (pact (ab s) < n)%nat ->
+  Forall (fun ev => forall t, fst ev = Some (t, true) -> (t < n)%nat) evs ->
+  Forall (mherm n) (adelR s) -> Forall (mherm n) (adelP s) -> mherm n (prho (ab s)) ->
+  Forall (mherm n) (adelR sf) /\ Forall (mherm n) (adelP sf) /\ mherm n (prho (ab sf)) /\ (pact (ab sf) < n)%nat.
+Proof.
+  induction ds as [|d ds IH]; intros s sf evs H Hok Ha Hev HR HP Hr.
+  - cbn in H. injection H as <- <-. repeat split; assumption.
+  - cbn [run_af] in H.
+    destruct (step_af ROps n m dt poisson (azeta d) (aeprev d) (ae0 d) (ae1 d) (afm1 d) (aepsR d) (acoR d) (alam d) (aC d) (aetas d) s) as [[s1 att] coll] eqn:Es.
+    destruct (run_af ROps n m dt poisson ds s1) as [sf' evs'] eqn:Er. injection H as <- <-.
+    pose proof (Forall_inv Hok) as Hd. pose proof (Forall_inv_tail Hok) as Hds. destruct Hd as (Hl & HC & Hfm).
+    pose proof (Forall_inv Hev) as He. pose proof (Forall_inv_tail Hev) as Hevs. cbn [fst] in He.
+    destruct (step_af_hermitian n m dt poisson _ _ _ _ _ _ _ _ _ _ s s1 att coll Es Hl HC Ha He Hfm HR HP Hr) as (A & B & C0).
+    assert (pact (ab s1) < n)%nat as Ha1.
+    { rewrite (step_af_active _ _ _ _ _ _ _ _ _ _ _ _ _ _ _ _ _ _ Es). destruct att as [[t [|]]|]; [apply He; reflexivity | exact Ha | exact Ha]. }
+    apply (IH s1 sf' evs' Er Hds Ha1 Hevs A B C0).
+Qed.
